@@ -16,7 +16,7 @@ def wrap(steps):
     return {"steps": steps + TAIL}
 
 C = dict(
-    prop="C05", driver="ckpt", level="model_checking", driver_parallel=8,
+    prop="C05", driver="ckpt", level="model_checking", driver_parallel=8, driver_timeout=3000, driver_chunk=600,
     model_checks=[
         dict(module="Checkpoint_MC", cfg="Checkpoint_MC_1.cfg", workers=8),
         dict(module="Checkpoint_MC", cfg="Checkpoint_MC_2.cfg", workers=8),
@@ -27,7 +27,7 @@ C = dict(
         dict(name="k2", module="Checkpoint_MC", cfg="Checkpoint_Plan_2.cfg", cap={"quick": 50, "thorough": 1500}, params=P(SH2, T1, 2), workers=8),
         dict(name="k2t", module="Checkpoint_MC", cfg="Checkpoint_Plan_2t.cfg", cap={"quick": 50, "thorough": 1500}, params=P(SH2T, T2, 1), workers=8),
         dict(name="k2t2", module="Checkpoint_MC", cfg="Checkpoint_Plan_2t2.cfg", cap={"quick": 30, "thorough": 1500}, params=P(SH2T, T2, 2), workers=8),
-    ] + opcommon.sources(40, 2500),
+    ] + opcommon.sources(40, 700),
     directed="plans/C05.jsonl",
     # plans of OpStream.tla (operation packs of the replicate channel read by per-task channel readers) run on the same
     # driver and are judged by OpStream_Trace
